@@ -126,6 +126,93 @@ def table : P (List (List (List (Tensor F)))) := do
   let l ← nat
   many (do let f ← nat; many (do let b ← nat; many tensor b) f) l
 
+def accum : P Accumulation := do
+  let t ← tok
+  match t with
+  | "add" => pure .add | "sub" => pure .subtract | "mul" => pure .multiply
+  | "overwrite" => pure .overwrite | "mean" => pure .mean
+  | _ => throw s!"expected accumulation, got {t}"
+
+def pair : P (Nat × Nat) := do let a ← nat; let b ← nat; pure (a, b)
+
+def scaleFn : P (F → F) := do
+  let t ← tok
+  match t with
+  | "inv" => pure (fun x => 1 / x)
+  | "one" => pure (fun _ => 1)
+  | "sqrt" => pure (fun x => 1 / Float32.sqrt x)
+  | _ => throw s!"expected scale id, got {t}"
+
+/-- an inner layer description with its parameters -/
+def innerSpec : P (Network.InnerSpec F) := do
+  let t ← tok
+  match t with
+  | "dense" => do
+    let o ← nat; let a ← act; let b ← boolean; let d ← optF; let w ← tensor
+    let bt ← if b then (do let x ← tensor; pure (some x)) else pure none
+    pure (.dense o a b d w bt)
+  | "conv" => do
+    let f ← nat; let a ← act; let k ← pair; let st ← pair; let p ← pair; let dl ← pair; let d ← optF
+    let ks ← many tensor f
+    pure (.conv f a k st p dl d ks)
+  | "deconv" => do
+    let f ← nat; let a ← act; let k ← pair; let st ← pair; let p ← pair; let d ← optF
+    let ks ← many tensor f
+    pure (.deconv f a k st p d ks)
+  | "maxpool" => do let k ← pair; let st ← pair; pure (.maxpool k st)
+  | _ => throw s!"expected inner layer, got {t}"
+
+/-- one builder call applied to a network under construction -/
+def buildStep (n : Except Err (Network F)) : P (Except Err (Network F)) := do
+  let t ← tok
+  match t with
+  | "dense" => do
+    let o ← nat; let a ← act; let b ← boolean; let d ← optF; let w ← tensor
+    let bt ← if b then (do let x ← tensor; pure (some x)) else pure none
+    pure (n.bind (fun n => n.addDense o a b d w bt))
+  | "conv" => do
+    let f ← nat; let a ← act; let k ← pair; let st ← pair; let p ← pair; let dl ← pair; let d ← optF
+    let ks ← many tensor f
+    pure (n.bind (fun n => n.addConv f k st p dl a d ks))
+  | "deconv" => do
+    let f ← nat; let a ← act; let k ← pair; let st ← pair; let p ← pair; let d ← optF
+    let ks ← many tensor f
+    pure (n.bind (fun n => n.addDeconv f k st p a d ks))
+  | "maxpool" => do let k ← pair; let st ← pair; pure (n.bind (fun n => n.addMaxpool k st))
+  | "feedback" => do
+    let k ← nat; let specs ← many innerSpec k; let loops ← nat; let i ← boolean; let o ← boolean; let a ← accum
+    pure (n.bind (fun n => n.addFeedback specs loops i o a))
+  | "connect" => do let a ← nat; let b ← nat; pure (n.bind (fun n => n.addConnect a b))
+  | "loopback" => do
+    let o ← nat; let i ← nat; let it ← nat; let sc ← scaleFn; let sk ← boolean
+    pure (n.bind (fun n => n.addLoopback o i it sc sk))
+  | _ => throw s!"expected builder call, got {t}"
+
+def buildSteps : Nat → Except Err (Network F) → P (Except Err (Network F))
+  | 0, n => pure n
+  | k+1, n => do let n' ← buildStep n; buildSteps k n'
+
+/-- a whole network: input shape, builder calls, accumulations, optimizer, objective -/
+def network : P (Except Err (Network F)) := do
+  let inp ← shape
+  let k ← nat
+  let n ← buildSteps k (.ok (Network.new inp))
+  let sa ← accum; let la ← accum
+  let hasOpt ← tok
+  let optk ← if hasOpt == "opt" then (do let o ← optimizer; pure (some o)) else pure none
+  let ob ← obj
+  let cl ← clampOpt
+  let finish (net : Network F) : Network F :=
+    let net2 : Network F := { net with skipaccumulation := sa, loopaccumulation := la, objective := ob, clamp := cl }
+    match optk with
+    | some o => net2.setOptimizer o
+    | none => net2
+  pure (n.map finish)
+
+def samples (k : Nat) : P (List (Tensor F) × List (Tensor F)) := do
+  let ps ← many (do let x ← tensor; let t ← tensor; pure (x, t)) k
+  pure (ps.map (·.1), ps.map (·.2))
+
 /-! ### rendering -/
 
 def canonBits (x : F) : Nat :=
@@ -158,6 +245,38 @@ def rOptTensor : Option (Tensor F) → String
   | some t => rTensor t
 
 def rNats (l : List Nat) : String := " ".intercalate (l.map toString)
+
+def rBool (b : Bool) : String := if b then "1" else "0"
+
+def rInnerParams : Inner F → String
+  | .dense d => s!"dense {rTensor d.weights} {rOptTensor d.bias}"
+  | .conv d => "conv " ++ " ".intercalate (d.kernels.map rTensor)
+  | .deconv d => "deconv " ++ " ".intercalate (d.kernels.map rTensor)
+  | .maxpool _ => "maxpool"
+
+def rLayerParams : Layer F → String
+  | .dense d => rInnerParams (.dense d)
+  | .conv d => rInnerParams (.conv d)
+  | .deconv d => rInnerParams (.deconv d)
+  | .maxpool d => rInnerParams (.maxpool d)
+  | .feedback f => "feedback " ++ " ".intercalate (f.layers.map rInnerParams)
+
+def rNetParams (n : Network F) : String := " ".intercalate (n.layers.map rLayerParams)
+
+def rLayerShapes : Layer F → String
+  | .dense d => s!"dense {rShape d.inputs} {rShape d.outputs}"
+  | .conv d => s!"conv {rShape d.inputs} {rShape d.outputs} {rBool d.flatten}"
+  | .deconv d => s!"deconv {rShape d.inputs} {rShape d.outputs} {rBool d.flatten}"
+  | .maxpool d => s!"maxpool {rShape d.inputs} {rShape d.outputs} {rBool d.flatten}"
+  | .feedback f => s!"feedback {rShape f.inputs} {rShape f.outputs} {rBool f.flatten} {f.layers.length}"
+
+def rW : Network.WGrad F → String
+  | .one t => rTensor t
+  | .block ts => "block " ++ " ".intercalate (ts.map rTensor)
+
+def rB : Network.BGrad F → String
+  | .one t => rOptTensor t
+  | .block ts => "block " ++ " ".intercalate (ts.map rOptTensor)
 
 def respond {β : Type} (r : Except Err β) (f : β → String) : String :=
   match r with
@@ -251,6 +370,48 @@ def handle (op : String) : P String := do
     | none =>
       let all := params.flatMap (·.flatMap (·.map rTensor))
       pure ("ok " ++ " ".intercalate (out ++ all))
+  /- network.rs / feedback.rs / layers -/
+  | "net" => do
+    let n ← network
+    let cmd ← tok
+    match cmd with
+    | "shapes" =>
+      pure (respond n (fun n =>
+        let ps := match n.parameters with | .ok p => toString p | .error _ => "err"
+        " ".intercalate (n.layers.map rLayerShapes) ++ s!" params {ps} connect {n.connect.length} loops {n.loopbacks.length}"))
+    | "connectmap" =>
+      pure (respond n (fun n => toString ((n.connect.toArray.qsort (fun a b => a.1 < b.1)).toList)))
+    | "predict" => do
+      let x ← tensor
+      pure (respond (n.bind (fun n => n.predict x)) rTensor)
+    | "forward" => do
+      let x ← tensor
+      pure (respond (n.bind (fun n => n.forward x)) (fun t =>
+        " ".intercalate (t.pre.map rTensor) ++ " | " ++ " ".intercalate (t.act.map rTensor)))
+    | "backward" => do
+      let x ← tensor; let t ← tensor
+      pure (respond (n.bind (fun n => n.sampleGradients x t)) (fun r =>
+        rF r.2.2.1 ++ " " ++ " ".intercalate (r.1.map rW) ++ " | " ++ " ".intercalate (r.2.1.map rB)))
+    | "flags" => pure (respond n (fun n => " ".intercalate (n.flags.map rBool)))
+    | "predict_batch" => do
+      let k ← nat; let xs ← many tensor k
+      pure (respond (n.bind (fun n => n.predictBatch xs)) (fun ys => " ".intercalate (ys.map rTensor)))
+    | "validate" => do
+      let k ← nat; let (xs, ts) ← samples k; let tol ← flt; let train ← boolean
+      pure (respond (n.bind (fun n => (if train then n.setAllTraining true else n).validate xs ts tol))
+        (fun r => s!"{rF r.2.1} {rF r.2.2} flags " ++ " ".intercalate (r.1.flags.map rBool)))
+    | "learn" => do
+      let k ← nat; let (xs, ts) ← samples k
+      let hasVal ← boolean
+      let val ← if hasVal then (do
+          let kv ← nat; let (vx, vt) ← samples kv; let thr ← nat
+          pure (some (vx, vt, thr))) else pure none
+      let batch ← nat; let epochs ← nat
+      let ns ← nat; let script ← many flt ns
+      pure (respond (n.bind (fun n => n.learn xs ts val batch epochs script)) (fun r =>
+        s!"{r.trainLoss.length} {r.valLoss.length} {r.valAcc.length} " ++ rV1 r.trainLoss ++ " | " ++ rV1 r.valLoss ++ " | " ++
+          rV1 r.valAcc ++ " | " ++ rNetParams r.net ++ " flags " ++ " ".intercalate (r.net.flags.map rBool)))
+    | _ => throw s!"unknown net command {cmd}"
   /- random.rs -/
   | "rnd.tof32" => do let n ← nat; pure s!"ok {Random.toF32 n}"
   | "rnd.generate" => do
